@@ -231,16 +231,21 @@ def run_grid(case):
         n += 1
         if not np.allclose(np.asarray(a, float), b, rtol=0, atol=1e-9):
             bad("levels:integer-bathymetry", f"sdepth with {name_} bathymetry (N={N} Vt={Vt}) differs from the float result by {np.abs(np.asarray(a, float) - b).max()}")
+    kept = []
     for ths, thb in [(1.0, 0.5), (5.0, 0.1 if Vs == 1 else 2.0), (7.0, 1.0)]:
         w = world.World(imax=5, jmax=4, N=N, h=h, hc=hc, theta_s=ths, theta_b=thb, Vtransform=Vt, Vstretching=Vs)
         f = w.write_file(d / f"g_{ths}.nc", [dict(t=0, **w.zeros())])
-        for how in ("file", "vinfo"):
+        for how in ("file", "vinfo", "vinfo-hc0", "vinfo-hc0.0"):
             tag = f"Grid({how}) N={N} Vs={Vs} Vt={Vt} theta_s={ths} theta_b={thb}"
+            hc_used = hc
             try:
                 if how == "file":
                     g = Grid(f)
-                else:
+                elif how == "vinfo":
                     g = Grid(f, Vinfo=dict(N=N, hc=hc, theta_s=ths, theta_b=thb, Vstretching=Vs, Vtransform=Vt))
+                else:  # the pure sigma coordinate hc = 0 (as an int and as a float) given explicitly, while the file says hc = 20
+                    hc_used = 0.0
+                    g = Grid(f, Vinfo=dict(N=N, hc=0 if how == "vinfo-hc0" else 0.0, theta_s=ths, theta_b=thb, Vstretching=Vs, Vtransform=Vt))
             except BaseException as e:
                 bad("grid:exception", f"{tag}: {e!r}")
                 continue
@@ -255,10 +260,19 @@ def run_grid(case):
             Cw, Cr = np.asarray(g.Cs_w), np.asarray(g.Cs_r)
             if abs(Cw[0] + 1) > 1e-12 or abs(Cw[-1]) > 1e-12 or (np.diff(Cw) <= 0).any() or (np.diff(Cr) <= 0).any():
                 bad("stretch:not-monotone", f"{tag}: Cs curves {Cw.tolist()}")
-            ref = world.ref_zlevels(H, hc, w.S_r, w.Cs_r, Vt).reshape(N, -1)
+            ref = world.ref_zlevels(H, hc_used, w.S_r, w.Cs_r, Vt).reshape(N, -1)
             if np.abs(zr - ref).max() > 1e-9 * H.max():
                 bad("levels:formula", f"{tag}: z_r differs from ROMS formula by {np.abs(zr - ref).max()}")
             n += check_lookup(zr, H.ravel(), N, tag, case, bad)
+            kept.append((tag, g, ref, H))
+    # every Grid built above is still in use (an ensemble over vertical set-ups on one grid shape): its levels must still be its own
+    for tag, g, ref, H in kept:
+        n += 1
+        zr = np.asarray(g.z_r).reshape(N, -1)
+        zw = np.asarray(g.z_w).reshape(N + 1, -1)
+        if np.abs(zr - ref).max() > 1e-9 * H.max() or np.abs(zw[0] + H.ravel()).max() > 1e-9 * H.max() or np.abs(zw[-1]).max() > 1e-9 * H.max():
+            bad("levels:changed-by-a-later-grid", f"{tag}: after other Grid objects of the same shape were built, this grid's z_r differs from its own levels by {np.abs(zr - ref).max()} "
+                                                  f"and z_w[0] + h by {np.abs(zw[0] + H.ravel()).max()}")
     return util.result(evals=n, nontrivial=n if N >= 2 else 0, viol=viols, outcomes=[["grid", N >= 2]], states=n, transitions=n, sample=dict(case))
 
 
